@@ -396,6 +396,45 @@ Fixpoint cut_at (lens : list nat) (data : bytes) : list bytes :=
   | n :: rest => firstn n data :: cut_at rest (skipn n data)
   end.
 
+(* ---------- descriptors a scan holds ----------
+   main.go inspectDirectory: os.ReadDir(f) opens the directory, reads ALL its entries and closes
+   it before the loop over the entries starts; an entry that is not a directory is stat'ed (no
+   descriptor) and, if regular, opened by inspectFile, which closes it (defer in inspectFile)
+   before it returns to the loop.  [peak_fds n]: the largest number of descriptors the scan of
+   entry n has open at one time, beyond the constant of the process (standard streams, the
+   run-time's poller). *)
+Fixpoint peak_fds (n : node) : nat :=
+  match n with
+  | Dir _ ch => Nat.max 1 (fold_right (fun c m => Nat.max (peak_fds c) m) 0%nat ch)
+  | Reg _ _ | LinkFile _ _ => 1%nat
+  | _ => 0%nat
+  end.
+
+(* NOT the code: a loop that opens each file itself and defers the close to the end of the
+   directory's scan (defer inside the loop): every regular file of a directory, and of all its
+   ancestors, is still open while the rest is scanned.  (opened so far, peak) over the entries;
+   kept only for the counter-example C10_descriptors_deferred_close_refuted. *)
+Fixpoint peak_fds_deferred (n : node) : nat :=
+  match n with
+  | Dir _ ch =>
+      snd (fold_left (fun (st : nat * nat) c =>
+                        let (held, peak) := st in
+                        match c with
+                        | Dir _ _ => (held, Nat.max peak (held + peak_fds_deferred c))
+                        | Reg _ _ | LinkFile _ _ => (S held, Nat.max peak (S held))
+                        | _ => st
+                        end) ch (0%nat, 1%nat))
+  | Reg _ _ | LinkFile _ _ => 1%nat
+  | _ => 0%nat
+  end.
+
+(* a directory of k regular files *)
+Fixpoint wide_listing (k : nat) : list node :=
+  match k with
+  | O => []
+  | S k' => Reg (N.of_nat k' :: nil) [] :: wide_listing k'
+  end.
+
 (* ---------- what is written to standard output ---------- *)
 Section Out.
   Variable body_of : bytes -> bytes -> bytes.   (* path -> content -> printInfo(Inspect(file)) *)
